@@ -975,7 +975,7 @@ def build_unit(unit_dir, repo, reach=False):
                 P.append(Piece('}\n\n'))
                 continue
             if kind == 'fn':
-                emit_fn(src, path, s, h, e, item.get('serves'), False)
+                emit_fn(src, path, s, h, e, item.get('serves'), False, None, item.get('instance'))
                 continue
             raise Unsupported("unit.json: unknown item kind %s" % kind)
 
